@@ -4,7 +4,10 @@ go 1.25.0
 
 toolchain go1.25.11
 
-require github.com/WuKongIM/WuKongIM v0.0.0
+require (
+	github.com/WuKongIM/WuKongIM v0.0.0
+	go.etcd.io/raft/v3 v3.6.0
+)
 
 require (
 	github.com/DataDog/zstd v1.5.7 // indirect
@@ -122,7 +125,6 @@ require (
 	github.com/yusufpapurcu/wmi v1.2.4 // indirect
 	github.com/zeebo/xxh3 v1.1.0 // indirect
 	go.etcd.io/etcd/pkg/v3 v3.5.17 // indirect
-	go.etcd.io/raft/v3 v3.6.0 // indirect
 	go.mongodb.org/mongo-driver/v2 v2.5.0 // indirect
 	go.uber.org/atomic v1.11.0 // indirect
 	go.uber.org/multierr v1.11.0 // indirect
